@@ -21,8 +21,11 @@ pub struct SlicePayload { pub parent: Option<BlockId>, pub data: Vec<u8> }
 // followed by the payload bytes (what the "+8" in the real code accounts for).  TRUSTED.
 #[verifier::external_body]
 pub fn verif_serialize_tx(buffer: &mut Vec<u8>, tx: &Transaction)
-    ensures final(buffer)@.len() == old(buffer)@.len() + 8 + tx.0@.len()
+    ensures final(buffer)@.len() == old(buffer)@.len() + 8 + tx.0@.len(),
+        spec_tx_items(final(buffer)@) == spec_tx_items(old(buffer)@) + 1,
 { unimplemented!() }
+// number of transactions serialized into the slice buffer so far (after the 8-byte count prefix, which is written last)
+pub uninterp spec fn spec_tx_items(buffer: Seq<u8>) -> nat;
 
 pub mod code {
 use super::*;
@@ -32,11 +35,11 @@ use super::*;
 props C10
 from `let tx = res.expect("receiving tx");`
 to `break duration_left.saturating_sub(start_time.elapsed()); }`
-wrap fn slice_step(buffer_space: usize, buffer: &mut Vec<u8>, tx_count_in: u64, res: Result<Transaction, IoError>) -> (r: bool)
-tail false
+wrap fn slice_step(buffer_space: usize, buffer: &mut Vec<u8>, tx_count_in: u64, res: Result<Transaction, IoError>) -> (rr: (bool, u64))
+tail (false, tx_count)
 rewrite[R8] `wincode::serialize_into(&mut buffer, &tx) .expect("serializing transaction into buffer should not fail");` => `verif_serialize_tx(buffer, &tx);`
-rewrite[stmt-range-param] `break duration_left.saturating_sub(start_time.elapsed());` => `return true;`
-rewrite[stmt-range-param] `continue;` => `return false;`
+rewrite[stmt-range-param] `break duration_left.saturating_sub(start_time.elapsed());` => `return (true, tx_count);`
+rewrite[stmt-range-param] `continue;` => `return (false, tx_count);`
 requires
         // loop invariant of the real loop: room for one more maximal transaction (initially: 8 bytes used, and the
         // const assertion MAX_DATA_PER_SLICE >= MAX_TRANSACTION_SIZE + 16)
@@ -47,9 +50,13 @@ ensures
         // [C10.slice_payload_within_limit] whatever a client sends, the payload never outgrows the slice
         final(buffer)@.len() <= buffer_space,
         // the loop continues only with room for one more maximal transaction
-        !r ==> final(buffer)@.len() + MAX_TRANSACTION_SIZE + 8 <= buffer_space,
+        !rr.0 ==> final(buffer)@.len() + MAX_TRANSACTION_SIZE + 8 <= buffer_space,
         // [C10.oversized_transaction_is_dropped] a transaction above the size limit leaves the slice untouched
-        (res matches Ok(t) && t.0@.len() > MAX_TRANSACTION_SIZE) ==> final(buffer)@ == old(buffer)@ && !r,
+        (res matches Ok(t) && t.0@.len() > MAX_TRANSACTION_SIZE) ==> final(buffer)@ == old(buffer)@ && !rr.0,
+        // [C10.transaction_count_matches_the_serialized_transactions] the count written into the slice's length prefix moves in
+        // step with the transactions actually serialized (also when a hostile transaction is dropped): otherwise the slice
+        // does not decode and the leader's own block fails reconstruction (the `unreachable!` of add_own_slice)
+        rr.1 - tx_count_in == spec_tx_items(final(buffer)@) - spec_tx_items(old(buffer)@),
 before `let tx = res.expect("receiving tx");`
         let mut tx_count = tx_count_in;
 @*/
